@@ -1010,6 +1010,35 @@ class Interp:
             if isinstance(k, ElemV):
                 return ("MAPGET", base.kind, k)
             return SymV(("value", base.kind))
+        if isinstance(base, SymMatV) and isinstance(sl, ast.Tuple) and len(sl.elts) == 2 and all(isinstance(x, ast.Slice) for x in sl.elts) \
+                and isinstance(base.cols, Layout):
+            # J[:, a:b]: a block of whole column segments (rows untouched)
+            rs, cs = sl.elts
+            if rs.lower is None and rs.upper is None and rs.step is None and cs.step is None:
+                lo = self.ev(cs.lower, env) if cs.lower is not None else SizeV.const(0)
+                hi = self.ev(cs.upper, env) if cs.upper is not None else None
+                lo = SizeV.const(lo.value) if isinstance(lo, Const) and isinstance(lo.value, int) else lo
+                hi = SizeV.const(hi.value) if isinstance(hi, Const) and isinstance(hi.value, int) else hi
+                if isinstance(lo, SizeV) and (hi is None or isinstance(hi, SizeV)):
+                    pos, taking, segs, ok = SizeV.const(0), False, [], True
+                    if pos == lo:
+                        taking = True
+                    for sg in base.cols.segs:
+                        if taking and hi is not None and pos == hi:
+                            taking = False
+                            break
+                        if taking:
+                            segs.append(sg)
+                        pos = pos + Layout((sg,)).size()
+                        if not taking and not segs and pos == lo:
+                            taking = True
+                    if hi is not None and taking and pos != hi:
+                        ok = False
+                    if lo != SizeV.const(0) and not segs and pos != lo:
+                        ok = False
+                    if ok and (segs or lo == pos):
+                        return SymMatV(base.rows, Layout(tuple(segs)))
+            return Unknown("matrix block")
         if isinstance(base, SymMatV) and isinstance(sl, ast.Tuple) and len(sl.elts) == 2:
             # one entry of a symbolic Jacobian: d(row element) / d(column element)
             r, c = self.ev(sl.elts[0], env), self.ev(sl.elts[1], env)
